@@ -34,7 +34,15 @@ func (r *Reader) readInfe(b *box) (err error) {
 		infeFastHeaderSize := 21
 
 		var contentType imagetype.ImageType
+		// box header and FullBox flags
+		if i+12 > len(buf) {
+			break
+		}
 		size := int(bmffEndian.Uint32(buf[i : i+4]))
+		// an item info entry cannot be smaller than its headers nor extend beyond the box
+		if size < 12 || size > len(buf)-i {
+			break
+		}
 		boxType := boxTypeFromBuf(buf[i+4 : i+8])
 		flags := flags(bmffEndian.Uint32(buf[i+8 : i+12]))
 
@@ -51,6 +59,10 @@ func (r *Reader) readInfe(b *box) (err error) {
 			continue
 		}
 
+		if size < infeFastHeaderSize {
+			i += size
+			continue
+		}
 		itemID := itemID(bmffEndian.Uint16(buf[i+12 : i+14]))
 		itemType := itemTypeFromBuf(buf[i+16 : i+20])
 		// expect whitespace
@@ -62,7 +74,9 @@ func (r *Reader) readInfe(b *box) (err error) {
 		}
 		switch itemType {
 		case itemTypeMime:
-			contentType = imagetype.FromString(string(buf[i+infeFastHeaderSize : i+size-1]))
+			if size-1 >= infeFastHeaderSize {
+				contentType = imagetype.FromString(string(buf[i+infeFastHeaderSize : i+size-1]))
+			}
 			r.heic.xml.id = itemID
 		case itemTypeExif:
 			r.heic.exif.id = itemID
